@@ -131,7 +131,7 @@ def shard(ctx):
         if rng.random() < 0.7:
             kind, text = hostile.hostile_text(rng)
         else:
-            kind, text = 'grammar', gen.text()
+            kind, text = 'grammar', hostile.decorate(rng, gen.text())
         check_text(rec, kind, text, stream=(i % 5 == 0))
         if i % 1500 == 700:
             check_text(rec, 'bulk', hostile.bulk_statement(rng))
